@@ -336,6 +336,16 @@ class Lower:
             self.stmt(s, in_sub)
 
     def stmt(self, s, in_sub):
+        n0 = len(self.items)
+        self._stmt(s, in_sub)
+        if len(self.items) > n0:
+            it = self.items[n0]
+            if len(it) == 3:
+                it.append({})
+            if it[0] == "I":
+                it[3]["s"] = 1  # first item of a statement (stack is at its base height here)
+
+    def _stmt(self, s, in_sub):
         k = s[0]
         if k == "assert":
             self.cond(s[1])
@@ -623,7 +633,7 @@ DETECTOR_FIELDS = {
 
 @st.composite
 def semantic_program(draw, profile: str = "modelled", disabled=(), focus: Optional[List[str]] = None,
-                     mode: Optional[str] = None, max_stmts: int = 12):
+                     mode: Optional[str] = None, max_stmts: int = 12, with_ast: bool = False):
     cfg = Cfg(profile, disabled, focus, mode)
     version = draw(st.sampled_from([8, 8, 8, 7, 6, 5, 4, 4, 3, 2]))
     m = mode or draw(st.sampled_from(["lsig", "lsig", "app"]))
@@ -654,9 +664,21 @@ def semantic_program(draw, profile: str = "modelled", disabled=(), focus: Option
         "coalesce": draw(st.booleans()) and cfg.on("shared_join_label"),
     }
     prog = lower_program(ast, cfg)
-    if m == "app":
+    if with_ast:
+        prog["ast"] = ast
+        prog["cfg_off"] = sorted(cfg.off)
+        prog["profile"] = profile
+    finalize_mode(prog)
+    return prog
+
+
+def finalize_mode(prog: dict) -> dict:
+    if prog["mode"] == "app":
         # make the flavour visible to tealer's mode detection: one application-only instruction, stack-neutral
-        prog["items"] = prog["items"] + []
         ins_at = 1 if prog["items"] and prog["items"][0][1] == "intcblock" else 0
-        prog["items"][ins_at:ins_at] = [I("int", 0), I("balance"), I("pop")]
+        marker = [I("pushint" if prog["version"] >= 3 else "int", 0), I("balance"), I("pop")]
+        if prog["items"] and prog["items"][0][1] == "intcblock":
+            # constants come from the block: use one that exists
+            marker[0] = I("intc", 0)
+        prog["items"][ins_at:ins_at] = marker
     return prog
